@@ -104,7 +104,10 @@ SQL_PATHS = ("lit", "pyformat", "qmark")
 DERIVED_PATHS = ("insert_select", "ctas", "clone")
 WP_PATHS = ("wp", "wp_dbschema", "wp_subset", "wp_auto")
 
-PLACEMENTS = ["none", "first", "middle", "last"]  # + one "all" cell per (type, path)
+# NULL placements of a cell [v]: none / NULL first / NULL in the middle / NULL last, + "after_identity": the value
+# preceded by the identity value of its type instead of a NULL (first-row sniffing by a falsy first value),
+# + one "all" cell (only NULLs) per (type, path)
+PLACEMENTS = ["none", "first", "middle", "last", "after_identity"]
 
 # --------------------------------------------------------------------------------------------------------------
 # boundary alphabets (shape label, value).  Labels name the *shape* of the input and are used in class keys.
@@ -226,9 +229,11 @@ BINARY_VALUES = [
 JSON_VALUES = [
     ("json_null", "null", "scalar"),
     ("json_true", "true", "scalar"),
+    ("json_false", "false", "scalar"),
     ("json_int", "0", "scalar"),
     ("json_neg_frac", "-1.5", "scalar"),
     ("json_str", '"s"', "scalar"),
+    ("json_empty_str", '""', "scalar"),
     ("json_str_quote", '"q\\"uote"', "scalar"),
     ("empty_array", "[]", "array"),
     ("empty_object", "{}", "object"),
@@ -270,19 +275,38 @@ def values_for(ts):
 
 # quick tier: reduced value alphabets (shape labels), written out.  Contains every shape that is known to fail.
 QUICK_SHAPES = {
+    # every list keeps the "falsy / identity" value of the family (0, 0.0, Decimal(0), '', False, b'', empty JSON
+    # containers, epoch / midnight): exactly what a truthiness shortcut (`v and f(v)`, `if not v`) gets wrong
     "bool": ["true", "false"],
-    "fixed0": ["one", "neg_one", "int64_max", "int64_min", "over_int64", "over_uint64", "max_precision", "min_precision"],
-    "fixedS": ["half", "full_scale_digits", "min_magnitude_neg", "max_magnitude"],
-    "float": ["tenth", "float32_canary", "denormal_min", "max_neg", "neg_zero"],
+    "fixed0": ["zero", "one", "neg_one", "int64_max", "int64_min", "over_int64", "over_uint64", "max_precision", "min_precision"],
+    "fixedS": ["zero", "half", "full_scale_digits", "min_magnitude_neg", "max_magnitude"],
+    "float": ["zero", "tenth", "float32_canary", "denormal_min", "max_neg", "neg_zero"],
     "text": ["ascii", "empty", "quote", "backslash", "newline", "percent_s", "astral", "mixed", "len300"],
-    "date": ["year1", "pre_epoch", "year9999"],
+    "date": ["year1", "pre_epoch", "epoch", "year9999"],
     "time": ["midnight", "last_us"],
     "ntz": ["epoch_exact", "year1_f1us", "pre_epoch_f999999", "leap_day_fhalf", "year9999_f999999"],
     "tz": ["epoch_exact", "year1_f1us", "pre_epoch_f999999", "leap_day_fhalf", "year9999_f999999"],
     "binary": ["ascii", "empty", "high_nul_ascii"],
-    "json": ["json_null", "json_neg_frac", "json_str_quote", "empty_array", "empty_object", "nested_array", "nested_object"],
+    "json": ["json_null", "json_false", "json_int", "json_empty_str", "json_neg_frac", "json_str_quote", "empty_array",
+             "empty_object", "nested_array", "nested_object"],
 }
-QUICK_PLACEMENTS = ["none", "middle"]
+# reduced placements: NULL in the FIRST row is kept (implementations that sniff the first row / first value of a
+# column: DataFrame analysis, multi-row VALUES type inference), and so is the identity value in the first row
+QUICK_PLACEMENTS = ["none", "first", "middle", "after_identity"]
+
+# the "falsy / identity" value of each family, by shape label
+IDENTITY_SHAPE = {
+    "bool": "false", "fixed0": "zero", "fixedS": "zero", "float": "zero", "text": "empty", "date": "epoch",
+    "time": "midnight", "ntz": "epoch_exact", "tz": "epoch_exact", "binary": "empty",
+}
+
+
+def identity(ts):
+    """(shape, value) of the identity value of the type: False, 0, Decimal(0), 0.0, '', epoch, midnight, b'', {} / []."""
+    f = ts["family"]
+    shape = IDENTITY_SHAPE[f] if f != "json" else ("empty_array" if ts["json_kind"] == "array" else "empty_object")
+    return shape, dict(values_for(ts))[shape]
+
 
 # --------------------------------------------------------------------------------------------------------------
 # which combinations are demanded
@@ -345,12 +369,19 @@ def cells(ts, path, tier):
         placements = QUICK_PLACEMENTS
     out = []
     k = 0
+    ident_shape, ident = identity(ts)
     for shape, v in vals:
         if not allowed(ts, path, shape, v):
             continue
         for pl in placements:
             base = 10 * k + 1
-            if pl == "none":
+            if pl == "after_identity":
+                if shape == ident_shape:
+                    continue
+                if ts["family"] == "json" and path in WP_PATHS:
+                    continue  # {} next to {"a":..} in one DataFrame column: the parquet struct merges the keys, not demanded
+                rows = [(base, ident), (base + 1, v)]
+            elif pl == "none":
                 rows = [(base, v)]
             elif pl == "first":
                 rows = [(base, None), (base + 1, v)]
@@ -672,8 +703,9 @@ def tgroup(ts) -> str:
     return TGROUP[f]
 
 
-def vclass(ts, shape, value) -> str:
-    """Value class of a cell: what kind of boundary the written value sits on."""
+def vclass(ts, shape, value, others=()) -> str:
+    """Value class of a cell: what kind of boundary the written value (named by shape) sits on; others = the other
+    non-NULL values written by the same statement (the identity value of an after_identity cell)."""
     if shape == "null":
         return "null_only"
     f = ts["family"]
@@ -682,7 +714,7 @@ def vclass(ts, shape, value) -> str:
     if f == "json":
         return "json_null" if shape == "json_null" else "json_" + JSON_KIND[shape]
     if f == "binary":
-        return "empty" if value == b"" else "nonempty"
+        return "empty" if value == b"" or b"" in others else "nonempty"
     return "any"
 
 
